@@ -50,6 +50,9 @@ ASSUMPTIONS = [
     'neutrons closer than 1e-9 (relative) to a window edge or to a polygon edge are undecided',
     'regularity of subframes (subbounds must not raise) is only claimed for forward propagation '
     '(non-decreasing distances); chopper distances are equal or differ by >= 0.01 m',
+    'sets of measure zero are not judged: a window edge that only touches a polygon may or may not leave a '
+    'zero-area subframe; chopper window times are given in seconds and all chopper distances of one list in '
+    'one unit (other units make the code raise UnitError; units are not part of the property)',
 ]
 TECHNIQUE = ('runtime monitors (sys.monitoring) with per-frame ghost state (pulse + observed chopper history); '
              'independent neutron transmission simulator + long-double point-in-polygon; shear / clip / bounds '
@@ -348,11 +351,16 @@ class Monitors:
             mx = max(g.maxabs_t, _maxabs(_polys_flat(res)))
             ng = Ghost(res, g.pulse, g.hist, g.monotone and forward, dist, root, True, mx, g.ids)
             self.ghost[id(res)] = ng
-            self.judge_frame(res, g.pulse, g.hist, dist, 'propagate_to')
+            same = False
             if np.ndim(dist) == 0:
-                self.judge_same_target(ng)
+                same = self.judge_same_target(ng)
             else:
                 ctx.hit('distance_range_propagation')
+            if same:
+                # bit-identical to a frame with the same history that was judged already
+                ctx.count('transmission:identical_frame_judged_once')
+            else:
+                self.judge_frame(res, g.pulse, g.hist, dist, 'propagate_to')
         except Exception:  # noqa: BLE001
             ctx.oracle_error('C11 on_propagate')
 
@@ -364,9 +372,9 @@ class Monitors:
         first = self.same_target.get(key)
         if first is None:
             self.same_target[key] = ng
-            return
+            return False
         if first.frame is ng.frame:
-            return
+            return True
         a, b = _polys(first.frame), _polys(ng.frame)
         scale = max(first.maxabs_t, ng.maxabs_t)
         ok = len(a) == len(b)
@@ -384,6 +392,8 @@ class Monitors:
             case = _describe(ng.pulse, ng.hist, ng.dist)
             ctx.violation('two_step_differs', f'propagate_to chains to the same distance differ by {worst:.3g} '
                           f'(allowed {TOL_SAME:g}) or in shape', case)
+            return False
+        return ok and worst == 0.0  # same root => same pulse and chopper history
 
     # -- Frame.chop -------------------------------------------------------------------
     def on_chop(self, ev):
@@ -410,16 +420,19 @@ class Monitors:
             return
         try:
             res = ev.result
-            if abs(_scalar(res.distance, 'm') - m.distance) > 4 * EPS * m.distance:
+            # the distance the frame itself reports (float64; the chopper's distance converted by the
+            # code) is the observable; it must be the chopper distance up to the unit conversion
+            d_obs = _scalar(res.distance, 'm')
+            if abs(d_obs - m.distance) > 4 * EPS * m.distance:
                 ctx.violation('frame_distance', 'chop result is not at the chopper distance', case)
             hist = (*g.hist, m)
             mx = max(g.maxabs_t, _maxabs(_polys(res)))
-            forward = m.distance >= g.dist
-            self.ghost[id(res)] = Ghost(res, g.pulse, hist, g.monotone and bool(forward), m.distance, id(res),
+            forward = d_obs >= g.dist
+            self.ghost[id(res)] = Ghost(res, g.pulse, hist, g.monotone and bool(forward), d_obs, id(res),
                                         False, mx, (*g.ids, id(ch)))
-            if m.distance == g.dist:
+            if d_obs == g.dist:
                 ctx.hit('chop_from_frame_at_chopper_distance')
-            self.judge_frame(res, g.pulse, hist, m.distance, 'chop')
+            self.judge_frame(res, g.pulse, hist, d_obs, 'chop')
         except Exception:  # noqa: BLE001
             ctx.oracle_error('C11 on_chop')
 
